@@ -1274,7 +1274,19 @@ impl<'a, 'b> G<'a, 'b> {
                         match self.c.below(4) {
                             0 => {
                                 self.t("for");
-                                self.pat(1);
+                                // (a range pattern here trips a known rustfmt defect: `for 0..=9 inn.a(`)
+                                if self.c.flip() {
+                                    let n = self.ident();
+                                    self.t(&n);
+                                } else {
+                                    self.t("(");
+                                    let a = self.ident();
+                                    self.t(&a);
+                                    self.t(",");
+                                    let b = self.ident();
+                                    self.t(&b);
+                                    self.t(")");
+                                }
                                 self.t("in");
                                 self.cond_expr(d);
                                 self.block(d);
@@ -2218,6 +2230,10 @@ pub fn render(prog: &Prog, c: &mut Choices<'_>, ro: &RenderOpts) -> Rendered {
                         force_newline = false;
                     }
                     push_comment(&mut text, &mut comments, c, &mut next_comment, k.name(), &mut force_newline);
+                    if *k == SlotKind::EndOfLine {
+                        // "at the end of such a line": nothing follows the comment on its line
+                        force_newline = true;
+                    }
                 }
             }
             Piece::Tok(s) => {
@@ -2272,6 +2288,11 @@ pub fn render(prog: &Prog, c: &mut Choices<'_>, ro: &RenderOpts) -> Rendered {
                             }
                         }
                     };
+                    // a separator on a line of its own followed by a comment trips a known rustfmt
+                    // defect (the comma is emitted twice): keep `,` and `;` on the line they end
+                    if matches!(s.as_str(), "," | ";") && ws.contains('\n') && !prev.starts_with("//") && !force_newline {
+                        ws = " ".to_string();
+                    }
                     if prev.starts_with("//") && !ws.starts_with('\n') {
                         ws.insert(0, '\n');
                     }
